@@ -254,20 +254,32 @@ Definition reset_since (s : st) (paused : bool) : st :=
 
 Definition all_done (s : st) : bool := forallb is_done (s_chains s).
 
+Definition cmd_eqb (a b : cmd) : bool :=
+  match a, b with
+  | KPause, KPause | KResume, KResume | KProgress, KProgress | KFlush, KFlush
+  | KInspect, KInspect => true
+  | _, _ => false
+  end.
+
 Definition user_step (s : st) (e : uev) : option st :=
   match e, s_user s with
   | ECall c, UIdle => Some (set_user s (UCalling c))
   | ERet c code, UCalling c' =>
       match code, s_ctl s with
       | 1%Z, KResponding c'' =>
-          (* the response is handed over: both sides continue *)
-          let s1 := set_ctl (set_user s UIdle) KLoop in
-          Some (match c with
-                | KPause => reset_since s1 true
-                | KResume => reset_since s1 false
-                | _ => s1
-                end)
-      | 0%Z, (KFinalizing | KFinished | KDisconnected) => Some (set_user s UIdle)  (* controller gone: Err *)
+          (* the response is handed over: both sides continue; the returned command is the pending
+             one and the one the controller answers *)
+          if cmd_eqb c c' && cmd_eqb c c''
+          then
+            let s1 := set_ctl (set_user s UIdle) KLoop in
+            Some (match c with
+                  | KPause => reset_since s1 true
+                  | KResume => reset_since s1 false
+                  | _ => s1
+                  end)
+          else None
+      | 0%Z, (KFinalizing | KFinished | KDisconnected) =>
+          if cmd_eqb c c' then Some (set_user s UIdle) else None  (* controller gone: Err *)
       | _, _ => None
       end
   | ECallWait, UIdle => Some (set_user s UWaiting)
